@@ -369,6 +369,20 @@ def run_sampler(cuqi, iface, post, nsteps=2, keyword=False):
     return cap.calls, pts
 
 
+def owned_arrays(post):
+    out = {}
+    for k, get in (("prior.shape", lambda: post.prior.shape), ("prior.rate", lambda: post.prior.rate),
+                   ("likelihood.data", lambda: post.likelihood.data), ("likelihood.mean", lambda: post.likelihood.distribution.mean)):
+        try:
+            v = get()
+            if not callable(v):
+                a = np.asarray(v)
+                out[k] = (str(a.dtype), a.shape, a.tobytes())
+        except Exception:
+            pass
+    return out
+
+
 def stream_supported(ctx, cuqi, thorough):
     specs = gen_supported(ctx, thorough)
     built = []
@@ -391,11 +405,24 @@ def stream_supported(ctx, cuqi, thorough):
         for iface in ("exp", "leg"):
             ctx.case(f"sample-{iface}-{spec['fam']}{'-reg' if spec['reg'] else ''}", desc, nontrivial=True)
             tie_key = f"tie:{iface}:{fk}"
+            snap0 = owned_arrays(post)
             try:
                 calls, pts = run_sampler(cuqi, iface, post, nsteps=ctx.rng.choice([1, 2, 3]), keyword=ctx.rng.random() < 0.5)
                 impl_err = None
             except Exception as e:
                 calls, pts, impl_err = [], [], f"{type(e).__name__}: {str(e)[:100]}"
+            # caller- / prior-owned parameter arrays (prior shape, rate; likelihood data, mean) byte-compared across the draws;
+            # the second interface then runs on the same posterior object (several samplers on one posterior)
+            changed = [k for k, v in owned_arrays(post).items() if snap0.get(k) != v]
+            oc = ctx.extra_cov.setdefault("owned_arrays_compared", {"unchanged": 0, "changed": 0})
+            oc["changed" if changed else "unchanged"] += 1
+            if changed:
+                ctx.disagree(tie_key + ":owned-arrays", desc, "prior.shape / prior.rate / data / mean untouched by step()", changed,
+                             "a step modified an array owned by the caller / the prior in place")
+                drift = [(float(c["shape"][0]), 1.0 / float(c["scale"][0])) for c in calls]
+                if len(set(drift)) > 1:
+                    ctx.fail(tie_key + ":owned-arrays", desc, "every step of a fixed target draws from the same Gamma", drift,
+                             "in-place modification of " + ",".join(changed) + ": successive draws come from different Gammas")
             if out in ("err", "bad-op") or impl_err:
                 if out == "bad-op":
                     raise RuntimeError(f"driver rejected line for {desc}")
@@ -1564,7 +1591,11 @@ def run(ctx):
     lw, sw = prepare_weighted(ctx, cuqi, thorough)
     lg, sg = prepare_gamma_dim(ctx, cuqi, thorough)
     lm, sm = prepare_gmrf_glue(ctx, cuqi, thorough)
-    outs = ctx.lean.drive(lw + lg + lm)
+    from harness.props.c10_weighted import prepare_sparse, finish_sparse
+    ls, ss = prepare_sparse(ctx, cuqi, thorough)
+    outs = ctx.lean.drive(lw + lg + lm + ls)
+    finish_sparse(ctx, cuqi, ss, ls, outs[len(lw) + len(lg) + len(lm):])
+    outs = outs[:len(lw) + len(lg) + len(lm)]
     finish_weighted(ctx, cuqi, sw, lw, outs[:len(lw)])
     finish_gamma_dim(ctx, cuqi, sg, lg, outs[len(lw):len(lw) + len(lg)])
     finish_gmrf_glue(ctx, cuqi, sm, lm, outs[len(lw) + len(lg):])
